@@ -204,6 +204,10 @@ def timeoutAfterStart : List Label → Bool
   | .work :: r => r.any (fun l => match l with | .globalFire => true | _ => false)
   | _ :: r => timeoutAfterStart r
 
+def isStreamHead : Label → Bool
+  | .upRespS _ _ _ _ => true
+  | _ => false
+
 def isAttempt : Ev → Bool
   | .un _ => true
   | .uf _ _ => true
